@@ -29,6 +29,18 @@ ALLOWED = {
 OUTSIDE_FAULT_MODEL = {'PermissionError'}
 
 
+# Closed table of the handlers that swallow PermissionError (Windows file locking) or a whole OSError: (function, effects guarded by the try
+# body that matter) -> why continuing is harmless.  A new swallowing handler of these types is reported until it is reviewed and tabled.
+PERMISSION_HANDLERS = {
+    ('container:Container.is_initialised', 'OPEN'): 'an unreadable configuration means "not initialised" (init then refuses because the folder is not empty)',
+    ('container:Container.pack_all_loose', 'H_WRITE'): 'a loose file locked by its writer is skipped BEFORE its row is staged or tracked (C05/C17 R3 check exactly that); it is packed by a later call',
+    ('container:Container._clean_loose_objects', 'UNLINK'): 'a loose file still open elsewhere stays; its object is already committed in the index; clean_storage removes it later',
+    ('container:Container.clean_storage', 'UNLINK'): 'same: the packed copy is committed, the loose copy is removed by a later clean',
+    ('utils:ObjectWriter.__exit__', 'OPEN'): 'the existing copy cannot be read: the new bytes are kept as a duplicate that clean_storage verifies and restores',
+    ('utils:ObjectWriter.__exit__', 'REPLACE'): 'the corrupt existing copy cannot be replaced right now: the new bytes are kept as a duplicate',
+}
+
+
 def handler_types(h):
     if h.type is None:
         return ['<bare>']
@@ -97,6 +109,25 @@ def run(ctx, host=None):
                 else:
                     chk.ok(R2, f.qualname, construct, detail=f'types {types}; mutating effects in try body: {muts or "none"}')
     chk.require(nh >= 20, f'expected at least 20 except clauses in the package, found {nh}')
+    # closed table of PermissionError / OSError swallowing handlers
+    R2p = chk.rule('C17.R2p', 'every handler that swallows PermissionError or a whole OSError is one of the reviewed sites (closed table)', 5)
+    for f in prog.all_functions():
+        if isinstance(f.node, ast.Lambda) or f.module.name.endswith(('backup_utils', 'cli')):
+            continue
+        for n in walk_local(f.node):
+            if not isinstance(n, ast.Try):
+                continue
+            for h in n.handlers:
+                ts = handler_types(h)
+                if not ({'PermissionError', 'OSError', 'IOError', 'EnvironmentError'} & set(ts)) or always_raises(h.body):
+                    continue
+                effs = {e[0] for e in S.effects_of_stmts(n.body, f)}
+                keys = [(f.qualname, e0) for e0 in sorted(effs) if (f.qualname, e0) in PERMISSION_HANDLERS]
+                if keys:
+                    chk.ok(R2p, f.qualname, f'except {", ".join(ts)} around {keys[0][1]}', detail=PERMISSION_HANDLERS[keys[0]])
+                else:
+                    chk.bad(R2p, f.qualname, f'except {", ".join(ts)} around {sorted(effs)[:5]}', 'this handler swallows PermissionError / OSError at a site that is not in the reviewed table: the operation continues '
+                            'as if the guarded step had succeeded (or had nothing to do), which is only harmless at the tabled sites', where=f'{f.module.relpath}:{h.lineno}')
 
     # ---------------------------------------------------------------- R3
     pol = write_policy(depth=5)
